@@ -213,7 +213,10 @@ def solve_scipy(
     constraints_violated = False
     max_violation = 0.0
 
-    if result.success and scipy_constraints:
+    # The check runs for every returned point, not only when SciPy reports success:
+    # the status mapping below must never call an infeasible point optimal.
+    x_final = getattr(result, "x", None)
+    if x_final is not None and scipy_constraints:
         for c in scipy_constraints:
             c_val = c["fun"](result.x)
             # Scaled tolerance based on constraint magnitude
@@ -230,8 +233,18 @@ def solve_scipy(
                 max_violation = max(max_violation, violation)
                 constraints_violated = True
 
+    # Variable bounds are part of feasibility (some methods ignore them)
+    if x_final is not None:
+        for i, (lb, ub) in enumerate(bounds):
+            xi = float(x_final[i])
+            scaled_tol = atol + rtol * max(1.0, abs(xi))
+            excess = max(lb - xi, xi - ub)
+            if excess > scaled_tol:
+                max_violation = max(max_violation, excess)
+                constraints_violated = True
+
     # If SLSQP returned "optimal" but constraints are violated, retry with trust-constr
-    if constraints_violated and method == "SLSQP":
+    if constraints_violated and result.success and method == "SLSQP":
         warnings.warn(
             f"SLSQP returned a solution that violates constraints (max violation: {max_violation:.2e}). "
             "Retrying with trust-constr method for more robust optimization.",
@@ -258,8 +271,8 @@ def solve_scipy(
     elif "infeasible" in result.message.lower() or constraints_violated:
         status = SolverStatus.INFEASIBLE
     elif "positive directional derivative" in result.message.lower():
-        # SLSQP reports this when it converged but hit numerical precision limits
-        # The solution is typically still good - treat as optimal
+        # SLSQP reports this when it converged but hit numerical precision limits.
+        # The point passed the feasibility check above - treat as optimal
         status = SolverStatus.OPTIMAL
     else:
         status = SolverStatus.FAILED
